@@ -146,6 +146,12 @@ Fixpoint argmax_upto (f : Z -> Q) (m : nat) : Z :=
   end.
 Definition kcenter (k : Z) (kap : Z -> Q) : Z := argmax_upto kap (Z.to_nat (k - 1)).
 
+(* __init__(coordmap, shape, fwhm=6.0, scale=1.0, location=0.0, cov=None): every argument is
+   stored as given - 0 is a scale like any other *)
+Definition default_fwhm : Q := 6%Q.
+Definition default_scale : Q := 1%Q.
+Definition default_location : Q := 0%Q.
+
 (* smooth(): buffer <- data at origin; * fkernel; irfftn / l1sum; scale; location;
    window [w, n + w).  p is the output voxel, 0 <= p < n. *)
 Definition smooth1_w (n k w : Z) (x kap : Z -> Q) (scale loc : Q) (p : Z) : Q :=
